@@ -63,7 +63,10 @@ CHECKS["C15"] = dict(
          "iteration: the initial guess, one loop pass from an arbitrary "
          "symbolic iterate and the final averaging are cut from the AST of "
          "the real function and z3 decides equivariance of each (8 queries; "
-         "hypotheses: the pressure floor does not bind, divisors non-zero).",
+         "hypotheses: the pressure floor does not bind, divisors non-zero). "
+         "For exact, every path with return code 0 must have met the "
+         "convergence test (the relative Newton change is recorded through "
+         "the module globals; niter 1, 2).",
     note="floats as reals; sqrt = fresh non-negative root (or a registered "
          "root after the change of variables rho=a^2, gamma*p*rho=k^2, each "
          "use justified by a solver query); pow uninterpreted with the "
